@@ -21,7 +21,7 @@ for p in props:
         'evidence_file': f'/verif/evidence/{pid}.json',
         'replay_cmd_template': './bin/govc replay {path}',
         'engine': 'govc',
-        'technique': 'contract-based deductive verification: weakest-precondition style VCs generated from the typed AST of /repo by symbolic execution against //@ contracts, discharged by z3 5.1 / z3 4.8 / cvc5',
+        'technique': e.get('technique') or 'contract-based deductive verification: weakest-precondition style VCs generated from the typed AST of /repo by symbolic execution against //@ contracts, discharged by z3 5.1 / z3 4.8 / cvc5',
         'level_claimed': {'category': cat, 'text': e.get('claim', e.get('note', '')), 'design_ref': 'DESIGN.md section 6 ' + pid},
         'level_note': 'Trusted: ' + '; '.join(e.get('trusted_base', [])) + '. Not covered: ' + '; '.join(e.get('not_covered', [])) + '.',
     })
